@@ -431,7 +431,8 @@ def run(tier, replay=None):
                how='%d shared bodies identical' % (res['shared'] - len(res['changed']) - len(res['excepted'])), witness=res['changed'][0][0] if res['changed'] else None)
     rep.floor('impl-crate bodies compared between the macro-side and run-time-side builds', ncmp, 200)
     # the run-time `parse().expect()` that locale! emits: the canonical extension string re-parses (spec round trip, shared with C05)
-    c05.spec_roundtrip(rep)
+    # decided on the code, not only on the specification tables: the Display automata and the parser tables extracted from the MIR
+    c05.roundtrip_obligations(prog, rep)
     rep.explanation = ('Translation validation on a generated witness set: each well-formed invocation must type-check and its expansion, read from the MIR of the witness crate, must carry exactly the '
                        'integer forms / extension string of the canonical value that the checker\'s own reference canonicaliser computes for the literal; each ill-formed literal must be a compile '
                        'error located at its invocation. locale! defers the extensions to a run-time parse of the canonical string it emits; that this parse succeeds and gives the same extensions is '
